@@ -374,6 +374,10 @@ class ConfigManager:
                     "INSERT OR REPLACE INTO settings (key, value) VALUES ('current_environment_api_url', ?)",
                     (DEFAULT_ENVIRONMENT.api_url,),
                 )
+                # The selected profile belonged to the deleted environment; like an
+                # explicit environment switch, falling back to the default must not
+                # activate a same-named profile of the default environment.
+                conn.execute("DELETE FROM settings WHERE key = 'current_profile'")
 
             conn.commit()
             return True
